@@ -324,6 +324,8 @@ fn main() {
             match r {
                 Out::Ok((reply, init, initialized)) => {
                     oracle(1, &s, &c, &reply, &init, Some(initialized));
+                    // HashMap key order is per-process random: print the listed versions sorted (compared as a set)
+                    let reply = match reply { Reply::Mismatch(mut l) => { l.sort(); Reply::Mismatch(l) } r => r };
                     if !args.oracle_only { emit_case(&format!("new-{}", tag), &format!("(1,{},{},{})", coq_table(&s), coq_table(&c), coq_reply(&reply))); }
                 }
                 Out::Err(e) | Out::Panic(e) => emit_oracle_fail("new-no-reply", &format!("stack=pallas-network2 responder={} proposed={} : {}", coq_table(&s), coq_table(&c), e)),
